@@ -213,6 +213,7 @@ type caseC17R struct {
 	SpanI  [2]int `json:"span_i"` // byte extent of the first faulty statement
 	SpanJ  [2]int `json:"span_j"` // byte extent of the later faulty statement
 	Faults string `json:"faults"`
+	Spill  bool   `json:"spill,omitempty"` // second family: two diagnostics are due within SpanJ
 }
 
 var diagPosRe = regexp.MustCompile(`(?m)^line (\d+):(\d+): error`)
@@ -253,6 +254,18 @@ func checkC17R(c caseC17R) string {
 		return "two planted syntax errors, yet accepted"
 	}
 	offs := diagOffsets(c.Src, pr.log)
+	if c.Spill {
+		n := 0
+		for _, o := range offs {
+			if o > c.SpanJ[0] && o <= c.SpanJ[1] {
+				n++
+			}
+		}
+		if n < 2 {
+			return fmt.Sprintf("the unclosed statement's error is found at the keyword of the next statement, which has an error of its own: two diagnostics are due in bytes %v, %d found; log=%q", c.SpanJ, n, pr.log)
+		}
+		return ""
+	}
 	inI, inJ := false, false
 	for _, o := range offs {
 		if o > c.SpanI[0] && o <= c.SpanI[1] {
@@ -307,6 +320,69 @@ func TestC17Recovery(t *testing.T) {
 			return
 		}
 		i := gen.Pick(t, "stmti", cand)
+		if gen.Chance(t, 30, "spill") {
+			// second family: statement i lacks its closing parenthesis, so its
+			// error is found at the keyword of statement i+1 (which, being
+			// looked for as a ')' and not as an operand, stays unconsumed);
+			// statement i+1 has an error of its own, possibly that the input
+			// ends right after its keyword. Two diagnostics are due from the
+			// keyword of i+1 on: the one of i and the one i+1 gets for itself.
+			j := i + 1
+			si, sj := r.SSpan[p.Stmts[i]], r.SSpan[p.Stmts[j]]
+			loI := si.First + 1
+			if p.Stmts[i].K == "var" {
+				loI = si.First + 3
+			}
+			mi := gen.Mutation{Kind: "insert", At: loI, Tok: gen.P("(")}
+			vi := ref.Recognize(mi.Apply(r.Toks))
+			if vi.Accept || vi.Unspecified != "" || vi.AtOperand || vi.Class != "syntax" || vi.FailTok != sj.First+1 {
+				rec.Case(false, harness.Hash("r-skip3"), "recovery:skipped-spill-premise")
+				return
+			}
+			var toks []gen.Tok
+			var faultJ string
+			cut := j == len(p.Stmts)-1 && gen.Bool(t, "cutshort")
+			if cut {
+				// the input ends after the keyword of the last statement
+				toks = append([]gen.Tok{}, r.Toks[:sj.First+1]...)
+				if vj := ref.Recognize(toks); vj.Accept || vj.Unspecified != "" || vj.FailTok != len(toks) {
+					rec.Case(false, harness.Hash("r-skip3"), "recovery:skipped-spill-premise")
+					return
+				}
+				faultJ = "input ends after the keyword"
+			} else {
+				atJ := sj.First + 1 + gen.Uniform(t, sj.Last-sj.First+1, "atj")
+				fj := gen.Pick(t, "fj", faultToks)
+				mj := gen.Mutation{Kind: "insert", At: atJ, Tok: fj}
+				vj := ref.Recognize(mj.Apply(r.Toks))
+				if vj.Accept || vj.Unspecified != "" || vj.FailTok < sj.First+1 || vj.FailTok > sj.Last+1 {
+					rec.Case(false, harness.Hash("r-skip3"), "recovery:skipped-spill-premise")
+					return
+				}
+				toks = mj.Apply(r.Toks)
+				faultJ = fmt.Sprintf("insert %q at token %d", fj.S, atJ)
+			}
+			toks = mi.Apply(toks)
+			lay := gen.GenLayout(t, toks, gen.LayoutOpts{Plain: 80})
+			if cut && gen.Bool(t, "nothingafter") {
+				lay.Gaps[len(toks)] = ""
+			}
+			src, pos := renderChecked(toks, lay)
+			kw := sj.First + 1 // index of the keyword of statement j after the insertion in i
+			end := len(src)
+			if !cut {
+				end = pos[sj.Last+2].End
+			}
+			c := caseC17R{Src: src, Spill: true, SpanJ: [2]int{pos[kw].Start, end},
+				Faults: fmt.Sprintf("'(' without ')' in statement %d (%s); statement %d (%s): %s", i, p.Stmts[i].K, j, p.Stmts[j].K, faultJ)}
+			viol := checkC17R(c)
+			rec.Case(true, harness.Hash("rec", src), "recovery:spill", "recovery:later-stmt-"+p.Stmts[j].K, fmt.Sprintf("recovery:cut-short=%v", cut))
+			rec.Sample(func() any { return map[string]any{"recovery_src": clip(src, 300), "faults": c.Faults} })
+			if viol != "" {
+				rec.Fail(t, c, "%s\n%s\nsource: %q", viol, c.Faults, src)
+			}
+			return
+		}
 		j := i + 1 + gen.Uniform(t, len(p.Stmts)-i-1, "stmtj")
 		si, sj := r.SSpan[p.Stmts[i]], r.SSpan[p.Stmts[j]]
 		// fault positions: inside the expression of i (after 'var x =' resp. the keyword), after the first token of j
